@@ -366,16 +366,22 @@ type leafInfo struct {
 	Path string
 	Sort string
 	T    types.Type
+	Ptr  bool // pointer-like leaf (slice ref, pointer, value of a pointer-only interface)
 }
 
 // leafPaths lists the scalar leaves of a type with dotted paths.
 func (E *Engine) leafPaths(T types.Type, prefix string, out *[]leafInfo) {
 	sh := E.shape(T)
 	if sh.Scalar {
-		*out = append(*out, leafInfo{prefix, sh.Sort, T})
+		*out = append(*out, leafInfo{Path: prefix, Sort: sh.Sort, T: T})
 		return
 	}
+	ptrIface := sh.Kind == "iface" && E.CS.PtrIfaces[namedKey(T)]
 	for _, f := range sh.Fields {
+		if ptrIface && f.Name == "#val" {
+			*out = append(*out, leafInfo{Path: prefix + "#val", Sort: SInt, T: f.T, Ptr: true})
+			continue
+		}
 		p := prefix
 		if strings.HasPrefix(f.Name, "#") || strings.HasPrefix(f.Name, "[") {
 			p += f.Name
